@@ -540,6 +540,13 @@ class Models(object):
             return ns if name is None else getattr(ns, name)
         if modname == 'operator':
             return self._operator_ns() if name is None else getattr(self._operator_ns(), name)
+        if modname == 'typing':
+            import typing as _typing
+            if name is None:
+                return _typing
+            if not hasattr(_typing, name):
+                raise AnalysisError('no model for typing.%s' % name)
+            return getattr(_typing, name)          # only NamedTuple has a meaning at run time; the rest annotates
         if modname == 'types':
             import types as _types
             ns = Namespace('types', MappingProxyType=_types.MappingProxyType, SimpleNamespace=_types.SimpleNamespace)
